@@ -12,6 +12,7 @@ from fractions import Fraction
 
 sys.path.insert(0, os.path.dirname(os.path.abspath(__file__)))
 from lib import Check, guarded, reslit, zlit, blit, listlit, REPO   # noqa: E402
+import gen_geojson   # noqa: E402  (tools/: translator tie for the export side: to_geo_interface, linear_rings, properties, to_geojson)
 import gen_ring   # noqa: E402  (tools/: translator tie for is_counter_clockwise / GeoPolygon.__init__)
 
 logging.disable(logging.CRITICAL)
@@ -539,6 +540,11 @@ def main():
     ck.build_theories(['theories/Props/C14.vo', 'theories/Corr/GeoJsonK.vo'])
     rep = gen_ring.main(REPO, os.path.join(ck.rundir, 'RingGen.v'))   # the shoelace loop and the outline normalisation regenerated ...
     ck.gen('RingGen.v', rep, 'RingGenEq.v')                           # ... proved equal to RingM.is_ccw / norm_ring (mk_polygon, mk_hole) for all rings
+    try:
+        rep_gj = gen_geojson.main(REPO, os.path.join(ck.rundir, 'GeoJsonGen.v'))
+    except Exception as ex:   # noqa
+        rep_gj = {'gen_geojson': f'failed({ex!r})'}
+    ck.gen('GeoJsonGen.v', rep_gj, 'GeoJsonGenEq.v')
     ck.props('Props/C14.v')
     rng = ck.rng
     quick = ck.tier == 'quick'
